@@ -95,6 +95,12 @@ func (iter *IntIter) Next(ctx context.Context) (Object, bool) {
 	if iter.done {
 		return nil, false
 	}
+	// The iterator is as long as a number that the script chose, and a
+	// builtin that drains it does nothing else in the meantime: it ends when
+	// the context does
+	if ctx.Err() != nil {
+		return nil, false
+	}
 	absTarget := iter.target
 	if absTarget < 0 {
 		absTarget = -absTarget
